@@ -49,6 +49,12 @@ class PLISTNode(ContainerNode):
     def __len__(self) -> int:
         return 1
 
+    def __eq__(self, other):
+        return isinstance(other, PLISTNode) and self.root == other.root
+
+    def __hash__(self):
+        return hash(self.root)
+
     def __repr__(self):
         return f"{self.__class__.__name__}({self.root!r})"
 
